@@ -41,7 +41,74 @@ def gen(ctx):
                     L.append(symgen.enc_line(sym, ver, level, mask, segs))
                     meta.append((sym, ver, level, mask, segs))
     ctx.c10 = meta
-    return L
+    # the scoring functions themselves, on structured bitmaps (model and implementation on the same lines; python reference in the oracle)
+    S = []
+    for n in (11, 13, 15, 17):
+        for a in range(n - 1):          # dark modules among x = 1..n-2 of the bottom row
+            for b in range(n - 1):      # dark modules among y = 1..n-2 of the right column
+                for c in (0, 1):        # the corner (n-1, n-1) belongs to both edges
+                    if ctx.tier == 'quick' and n < 17 and (a + 2 * b + c + ctx.seed) % 3:
+                        continue
+                    m = [[r.below(2) for _ in range(n)] for _ in range(n)]
+                    xs = list(range(1, n - 1))
+                    ys = list(range(1, n - 1))
+                    r.shuffle(xs)
+                    r.shuffle(ys)
+                    for x in range(1, n - 1):
+                        m[n - 1][x] = 0
+                    for y in range(1, n - 1):
+                        m[y][n - 1] = 0
+                    for x in xs[:a]:
+                        m[n - 1][x] = 1
+                    for y in ys[:b]:
+                        m[y][n - 1] = 1
+                    m[n - 1][n - 1] = c
+                    S.append('bmp.pointmicro ' + refqr.to_image_str(m))
+    for n in (21, 25, 29, 45):
+        for k in range(12 if ctx.tier == 'quick' else 60):
+            dens = [2, 5, 8, 1, 9][k % 5]
+            m = [[1 if r.below(10) < dens else 0 for _ in range(n)] for _ in range(n)]
+            kind = k % 4
+            if kind == 1:    # finder-like rows / columns flush against the borders and in the middle
+                pat = [1, 0, 1, 1, 1, 0, 1]
+                for _ in range(6):
+                    y, x0 = r.below(n), r.choice([0, n - 7, r.below(n - 6), 4, n - 11])
+                    if r.below(2):
+                        for j in range(7):
+                            m[y][x0 + j] = pat[j]
+                        for j in range(-4, 0):
+                            if 0 <= x0 + j:
+                                m[y][x0 + j] = 0 if r.below(4) else 1
+                    else:
+                        for j in range(7):
+                            m[x0 + j][y] = pat[j]
+            elif kind == 2:  # long runs and blocks
+                for _ in range(5):
+                    y, c = r.below(n), r.below(2)
+                    for x in range(r.below(n // 2), n - r.below(n // 2)):
+                        m[y][x] = c
+                        if y + 1 < n and r.below(2):
+                            m[y + 1][x] = c
+            elif kind == 3:  # dark ratio near the 5% steps
+                tot = n * n
+                want = (tot * r.choice([45, 50, 55, 40, 60]) + 50) // 100 + r.range(-1, 1)
+                cells = [(x, y) for y in range(n) for x in range(n)]
+                r.shuffle(cells)
+                for idx2, (x, y) in enumerate(cells):
+                    m[y][x] = 1 if idx2 < want else 0
+            S.append('bmp.point ' + refqr.to_image_str(m))
+    # automatic masking only, many more symbols with version information (v >= 7) and Micro QR M4: implementation against
+    # model (whose selection is proved to be the argmin / argmax); a disagreement breaks the tie and starts `search`
+    A = []
+    cq = [c for c in symgen.configs('qr') if c[0] >= 7]
+    for k in range(360 if ctx.tier == 'quick' else 3000):
+        ver, level = cq[r.below(len(cq))]
+        A.append(symgen.enc_line('qr', ver, level, -1, symgen.random_segs('qr', r, ver, level)))
+    for k in range(300 if ctx.tier == 'quick' else 6000):
+        ver, level = r.choice([c for c in symgen.configs('mq')])
+        A.append(symgen.enc_line('mq', ver, level, -1, symgen.random_segs('mq', r, ver, level)))
+    ctx.c10_scoring = len(S)
+    return L + S + A
 
 
 def score(sym, m):
@@ -91,14 +158,43 @@ def oracle(ctx, lines, out):
             if cnt[key] <= 2:
                 v.append({'key': key, 'lines': lines[i:i + 1 + len(ms)], 'expect': '', 'got': '', 'detail': detail})
         i += 1 + len(ms)
+    # scoring functions on structured bitmaps
+    for l, o in zip(lines[len(meta):], out[len(meta):]):
+        key = None
+        if not l.startswith('bmp.'):
+            continue
+        m = refqr.from_image_str(l.split(' ', 1)[1])
+        n = len(m)
+        if l.startswith('bmp.pointmicro '):
+            want = refmicro.edge_score(m)
+            if o != 'ok %d' % want:
+                s1, s2 = sum(m[n - 1][1:]), sum(m[y][n - 1] for y in range(1, n))
+                key = 'mq:edge-score'
+                detail = 'PointMicro of a %dx%d bitmap with %d dark modules in the bottom row and %d in the right column: `%s`, the edge score 16 x smaller + larger is %d' % (n, n, s1, s2, o[:30], want)
+        elif l.startswith('bmp.point '):
+            var = refqr.penalty_variants(m)
+            parts = refqr.penalty_parts(m)
+            t = o.split()
+            if len(t) != 5 or t[0] != 'ok':
+                key, detail = 'qr:penalty-failed', 'Point fails on a %dx%d bitmap: %s' % (n, n, o[:60])
+            else:
+                a, b, c, d = (int(x) for x in t[1:])
+                if b != parts['n1'] or c != parts['n2'] or a not in parts['n3'] or d not in parts['n4']:
+                    key = 'qr:penalty-feature'
+                    detail = ('penalty features of a %dx%d bitmap: implementation N3=%d N1=%d N2=%d N4=%d, reference N3 in %s N1=%d N2=%d N4 in %s'
+                              % (n, n, a, b, c, d, sorted(set(parts['n3'])), parts['n1'], parts['n2'], sorted(set(parts['n4']))))
+        if key:
+            cnt[key] = cnt.get(key, 0) + 1
+            if cnt[key] <= 2:
+                v.append({'key': key, 'lines': [l], 'expect': '', 'got': o[:80], 'detail': detail})
     for x in v:
-        x['detail'] += ' (%d such cases in this run)' % cnt[x['key']]
+        x['detail'] += ' (%d such cases in this run)' % cnt.get(x['key'], 1)
     return v
 
 
 def nontrivial(line, out):
     t = line.split()
-    return t[3] == '-1'
+    return t[0].startswith('bmp.') or t[3] == '-1'
 
 
 def search(ctx, broken, diffs):
